@@ -178,6 +178,8 @@ class Run:
             for c in self.calls:
                 if c['rec']['state'] in ('idle', 'park') or c['rec']['state'].startswith('big:'):
                     c['inflight_at_close'] = True
+                if c['rec']['state'].startswith('big:'):
+                    self.stalled_seen = True
 
     def deliver_other(self):
         while self.other_out and not self.tr.lost and not self.tr.closing:
@@ -570,7 +572,8 @@ class Run:
             if c['rec']['state'] == 'idle':
                 c['q'].put_nowait('park')
         self.loop.run_quiet(0.0)
-        self.stalled = sum(1 for c in self.calls if c['rec']['state'].startswith('big:'))
+        self.stalled = sum(1 for c in self.calls if c['rec']['state'].startswith('big:')) + \
+            (1 if getattr(self, 'stalled_seen', False) else 0)
         for c in self.calls:
             r = c['rec']
             self.outcomes.append({'state': r['state'], 'exc': exc_name(r['exc']) if r['exc'] else None,
